@@ -11,7 +11,7 @@ LEVEL = 'exploration'
 BUDGET = {'quick': (4500, 80.0), 'thorough': (300000, 1500.0)}
 RULE = ('one real ECU; a generated history of up to 12 add_timer / remove_timer / subscribe / unsubscribe operations (periods on a grid 1 ms..3 s, one-shot and '
         'periodic, duplicate registrations of one callback, callbacks removing themselves) issued from the application context or from inside a timer callback, '
-        'with idle gaps from 0 to several periods and injected frames for the subscribers; each registration carries a unique cookie so every call is attributed; '
+        'with idle gaps from 0 to several periods and injected frames for the subscribers (in some runs an application call is parked at its k-th library source line for 20 us .. 60 ms); each registration carries a unique cookie so every call is attributed; '
         'a timer model gives the allowed firing windows. non-trivial = at least one timer fired; distinct = distinct scenario JSON')
 FAULT_COUNTERS = {'application thread parked at a source line inside add_timer / remove_timer / subscribe / unsubscribe (pre-emption)': 'preempted_calls', 'operations issued from inside a timer callback': 'ops_in_timer_ctx', 'callbacks removing themselves': 'self_removals', 'expiries in the same pass': 'same_pass_expiries'}
 REQUIRED_PROBES = ['busy_callbacks', 'timer_calls', 'oneshots', 'periodics', 'duplicates', 'ops_in_timer_ctx', 'self_removals', 'removes', 'same_pass_expiries', 'subscriber_calls', 'preempted_calls', 'concurrent_add_remove']
